@@ -37,6 +37,58 @@ theorem propagateLit_aWatches (s : Sat) (t : Lra) (p : Lit) : (propagateLit s t 
       · exact hu _ _ _
       · exact hl _ _ _
 
+theorem saveBound_sAsrts (t : Lra) (i : Nat) : (t.saveBound i).sAsrts = t.sAsrts := by
+  unfold saveBound
+  split
+  · rfl
+  · split <;> rfl
+
+theorem alState_sAsrts (t : Lra) (xi : Nat) (val : IR) (p : Lit) : (alState t xi val p).sAsrts = t.sAsrts := by
+  unfold alState
+  simp only
+  split
+  · rw [update_eq]; exact saveBound_sAsrts t _
+  · exact saveBound_sAsrts t _
+
+theorem auState_sAsrts (t : Lra) (xi : Nat) (val : IR) (p : Lit) : (auState t xi val p).sAsrts = t.sAsrts := by
+  unfold auState
+  simp only
+  split
+  · rw [update_eq]; exact saveBound_sAsrts t _
+  · exact saveBound_sAsrts t _
+
+/-- the cache of assertion literals is not touched by `propagateLit` -/
+theorem propagateLit_sAsrts (s : Sat) (t : Lra) (p : Lit) : (propagateLit s t p).th.sAsrts = t.sAsrts := by
+  have hl : ∀ xi val q, (assertLower s t xi val q).th.sAsrts = t.sAsrts := fun xi val q => by
+    rcases assertLower_th s t xi val q with e | e <;> rw [e]
+    exact alState_sAsrts t xi val q
+  have hu : ∀ xi val q, (assertUpper s t xi val q).th.sAsrts = t.sAsrts := fun xi val q => by
+    rcases assertUpper_th s t xi val q with e | e <;> rw [e]
+    exact auState_sAsrts t xi val q
+  unfold propagateLit
+  cases hab : t.asrtOf p.var with
+  | none => rfl
+  | some a =>
+    simp only
+    rcases hsv : s.value a.b with _ | _ | _
+    · rfl
+    · simp only
+      split
+      · exact hl _ _ _
+      · exact hu _ _ _
+    · simp only
+      split
+      · exact hu _ _ _
+      · exact hl _ _ _
+
+theorem pop_sAsrts (t : Lra) : t.pop.sAsrts = t.sAsrts := by
+  unfold pop
+  split
+  · rfl
+  · next l ls _ =>
+    exact C09_foldl_inv (fun (u : Lra) => u.sAsrts = t.sAsrts) (fun (u : Lra) (e : Nat × LBound) => u.setBound e.1 e.2)
+      (fun u e hu => hu) l _ rfl
+
 theorem check_aWatches {t t' : Lra} (ht : TabWF t) {fuel : Nat} {c : Option (List Lit)}
     (h : t.check fuel = some (c, t')) : t'.aWatches = t.aWatches :=
   check_induct (fun u => u.aWatches = t.aWatches)
@@ -112,13 +164,15 @@ structure ThReg (N : Nat) (l : Lra) (i : Dl Int) (r : Dl IR) : Prop where
   good : Lra.GoodState l
   /-- the assertion watch lists only hold existing SAT variables -/
   aw : ∀ x, ∀ b ∈ l.aWatches.getD x [], b < N
+  /-- the cached assertion literals name existing SAT variables -/
+  sa : ∀ e ∈ l.sAsrts, e.2.var < N
 
 def NetReg (n : Net) : Prop := ThReg n.sat.vals.length n.lra n.idl n.rdl
 
 theorem ThReg.pop {N : Nat} {l : Lra} {i : Dl Int} {r : Dl IR} (h : ThReg N l i r) : ThReg N l.pop i.pop r.pop :=
   ⟨by rw [(Lra.pop_same l).2.2.2.1]; exact h.lra, by rw [dl_pop_varDists]; exact h.idl,
     by rw [dl_pop_varDists]; exact h.rdl, Lra.pop_good h.good,
-    by rw [(Lra.pop_same l).2.2.2.2]; exact h.aw⟩
+    by rw [(Lra.pop_same l).2.2.2.2]; exact h.aw, by rw [Lra.pop_sAsrts]; exact h.sa⟩
 
 theorem ThReg.popTo_go {N : Nat} (lvl : Nat) : ∀ (k : Nat) (n : Net), ThReg N n.lra n.idl n.rdl →
     ThReg N (popTo.go lvl k n).lra (popTo.go lvl k n).idl (popTo.go lvl k n).rdl
@@ -156,7 +210,9 @@ theorem theoryPropagate_recs {n : Net} {orig : Cnf} {fr : List Frame} (h : ThInv
     have hg : Lra.AsrtReg n.sat n.lra := ⟨hb.lra.inv.tab, hreg.good.nz, hb.lra.key, hreg.lra⟩
     obtain ⟨r1, r2⟩ := Lra.propagateLit_RC hb.lra.reasons hg hb.lra.inv.blen hb.lra.vars hp
     have hr := Lra.propagateLit_registry n.sat n.lra p
-    refine ⟨r1, r2, ⟨?_, ?_, ?_, ?_, ?_⟩⟩
+    refine ⟨r1, r2, ⟨?_, ?_, ?_, ?_, ?_, (by
+      show ∀ e ∈ (Lra.propagateLit n.sat n.lra p).th.sAsrts, e.2.var < (Lra.propagateLit n.sat n.lra p).sat.vals.length
+      rw [Lra.propagateLit_sAsrts, r1.len]; exact hreg.sa)⟩⟩
     rotate_right
     · show ∀ x, ∀ b ∈ (Lra.propagateLit n.sat n.lra p).th.aWatches.getD x [], b < (Lra.propagateLit n.sat n.lra p).sat.vals.length
       rw [Lra.propagateLit_aWatches, r1.len]; exact hreg.aw
@@ -192,7 +248,9 @@ theorem theoryPropagate_recs {n : Net} {orig : Cnf} {fr : List Frame} (h : ThInv
         have hvd := Dl.propagateLit_varDists n.sat s' n.idl t' _ hres'
         refine ⟨hrecs, (fun c hc => by cases hc), ⟨?_, ?_, ?_, hreg.good, (by
           show ∀ x, ∀ b ∈ n.lra.aWatches.getD x [], b < s'.vals.length
-          rw [hrecs.len]; exact hreg.aw)⟩⟩
+          rw [hrecs.len]; exact hreg.aw), (by
+          show ∀ e ∈ n.lra.sAsrts, e.2.var < s'.vals.length
+          rw [hrecs.len]; exact hreg.sa)⟩⟩
         · show ∀ e ∈ n.lra.vAsrts, e.1 < s'.vals.length
           rw [hrecs.len]; exact hreg.lra
         · show ∀ c ∈ t'.varDists, c.b < s'.vals.length
@@ -226,7 +284,9 @@ theorem theoryPropagate_recs {n : Net} {orig : Cnf} {fr : List Frame} (h : ThInv
         have hvd := DlR.propagateLit_varDistsR n.sat s' n.rdl t' _ hres'
         refine ⟨hrecs, (fun c hc => by cases hc), ⟨?_, ?_, ?_, hreg.good, (by
           show ∀ x, ∀ b ∈ n.lra.aWatches.getD x [], b < s'.vals.length
-          rw [hrecs.len]; exact hreg.aw)⟩⟩
+          rw [hrecs.len]; exact hreg.aw), (by
+          show ∀ e ∈ n.lra.sAsrts, e.2.var < s'.vals.length
+          rw [hrecs.len]; exact hreg.sa)⟩⟩
         · show ∀ e ∈ n.lra.vAsrts, e.1 < s'.vals.length
           rw [hrecs.len]; exact hreg.lra
         · show ∀ c ∈ n.idl.varDists, c.b < s'.vals.length
@@ -234,12 +294,54 @@ theorem theoryPropagate_recs {n : Net} {orig : Cnf} {fr : List Frame} (h : ThInv
         · show ∀ c ∈ t'.varDists, c.b < s'.vals.length
           rw [hvd, hrecs.len]; exact hreg.rdl
 
+/-! ### more added clauses -/
+
+theorem cnf_of_sub {α : Asg} {F G : Cnf} (hs : ∀ d ∈ F, d ∈ G) (h : α.cnf G = true) : α.cnf F = true := by
+  simp only [Asg.cnf, List.all_eq_true] at h ⊢
+  exact fun d hd => h d (hs d hd)
+
+theorem TEntails.mono_F {n : Net} {F G : Cnf} {c : Clause} (h : TEntails n F c) (hs : ∀ d ∈ F, d ∈ G) : TEntails n G c :=
+  fun α h0 hG hm => h α h0 (cnf_of_sub hs hG) hm
+
+theorem LraJ.mono {orig orig' : Cnf} {t : Lra} (h : LraJ orig t) (hs : ∀ d ∈ orig, d ∈ orig') : LraJ orig' t :=
+  fun α σr σi h0 ho => h α σr σi h0 (cnf_of_sub hs ho)
+
+theorem ThBase.mono_orig {orig orig' : Cnf} {s : Sat} {l : Lra} {i : Dl Int} {r : Dl IR} (h : ThBase orig s l i r)
+    (hs : ∀ d ∈ orig, d ∈ orig') : ThBase orig' s l i r :=
+  ⟨⟨h.lra.inv, h.lra.vals, h.lra.key, h.lra.vars, h.lra.just.mono hs, h.lra.reasons⟩, h.idl, h.rdl⟩
+
+theorem ThChain.mono_orig {orig orig' : Cnf} (hs : ∀ d ∈ orig, d ∈ orig') :
+    ∀ (fr : List Frame) (s : Sat) (l : Lra) (i : Dl Int) (r : Dl IR), ThChain orig s l i r fr → ThChain orig' s l i r fr
+  | [], s, l, i, r, h => ThBase.mono_orig (orig := orig) h hs
+  | f :: fs, s, l, i, r, h => by
+    obtain ⟨h1, h2, h3, h4, h5, h6, h7⟩ := h
+    exact ⟨h1.mono_orig hs, h2, h3, h4, h5, h6, ThChain.mono_orig hs fs _ _ _ _ h7⟩
+
+theorem ThInv.mono_origN {n : Net} {B B' : Cnf} {fr : List Frame} (h : ThInv n B fr) (hs : ∀ d ∈ B, d ∈ B') :
+    ThInv n B' fr := ThChain.mono_orig hs fr _ _ _ _ h
+
+/-- the lemmas may be cut out of the premises -/
+theorem TEntails.cut {n : Net} {orig L : Cnf} {c : Clause} (hl : ∀ d ∈ L, TEntails n orig d)
+    (h : TEntails n (orig ++ L) c) : TEntails n orig c := by
+  intro α h0 ho hm
+  refine h α h0 ?_ hm
+  rw [Asg.cnf_append, ho, Bool.true_and]
+  simp only [Asg.cnf, List.all_eq_true]
+  exact fun d hd => hl d hd α h0 ho hm
+
 /-! ### the invariant of the network -/
 
+/-- the invariant of the network.  The theory invariants - in particular `LraJ` - are RELATIVE TO THE
+    LEMMA-CLOSED ghost set `orig ++ L`: every bound holds in every LRA-consistent model of the added
+    clauses AND the recorded theory lemmas in which its reason is true.  (Relative to `orig` alone this is
+    not an invariant once a slack variable is created at root level: the root-level reasons its TRUE-reason
+    bounds are computed from may be consequences of lemmas of the other theories.)  Since every lemma is
+    T-entailed by `orig` (`lemmas`), whatever is T-entailed by `orig ++ L` is T-entailed by `orig`
+    (`TEntails.cut`). -/
 structure NetInv (n : Net) (orig L : Cnf) (fr : List Frame) : Prop where
   sat : SInv (orig ++ L) orig n.sat
   lemmas : ∀ c ∈ L, TEntails n orig c
-  th : ThInv n orig fr
+  th : ThInv n (orig ++ L) fr
   flv : FramesLv n.sat fr
   flen : fr.length = n.sat.decisionLevel
   reg : NetReg n
@@ -269,7 +371,10 @@ theorem NetInv.addLemma {n : Net} {orig L : Cnf} {fr : List Frame} (h : NetInv n
       rcases List.mem_append.1 hd with hd | hd
       · exact h.lemmas d hd
       · rw [List.mem_singleton.1 hd]; exact hc,
-    h.th, h.flv, h.flen, h.reg⟩
+    h.th.mono_origN (fun d hd => by
+      rcases List.mem_append.1 hd with hd | hd
+      · exact List.mem_append_left _ hd
+      · exact List.mem_append_right _ (List.mem_append_left _ hd)), h.flv, h.flen, h.reg⟩
 
 theorem ents_last {orig L : Cnf} (c : Clause) : Ents (orig ++ (L ++ [c])) c :=
   Ents.of_mem (List.mem_append_right _ (List.mem_append_right _ (List.mem_singleton.2 rfl)))
@@ -311,7 +416,7 @@ theorem NetInv.learn {n n' : Net} {orig L : Cnf} {fr : List Frame} {cnfl : Claus
       exact (TModel.congr (n := popTo n bt) (n' := { popTo n bt with sat := (n.sat.popTo bt).record noGood })
         (LraSame.refl _) rfl rfl α).trans (TModel.popTo n bt α)
     have hsat : n'.sat = (n.sat.popTo bt).record noGood := by rw [heq]
-    obtain ⟨fr', t1, t2, t3⟩ := ThInv.popTo_goLv bt n.sat.decisionLevel n fr h.th h.sat.wf hq h.flv h.flen
+    obtain ⟨fr', t1, t2, t3⟩ := ThInv.popTo_goLv bt n.sat.decisionLevel n fr h1.th h.sat.wf hq h.flv h.flen
     have hps : (popTo n bt).sat = n.sat.popTo bt := popTo_sat n bt
     have hkeep : AssignedKeep (n.sat.popTo bt) ((n.sat.popTo bt).record noGood) :=
       assignedKeep_of_trail r13 r1.wf.lvl0 (Dl.record_le _ _) r14
